@@ -302,6 +302,17 @@ func (f *Frame) applyContract(ct *Contract, fn *ssa.Function, sig *types.Signatu
 				all = true
 				break
 			}
+			if a.Cond != nil {
+				ct2, err := env.boolTerm(a.Cond)
+				if err != nil {
+					c.unsupported("assigns condition of %s: %v", ct.Key, err)
+					all = true
+					break
+				}
+				for i := range ts {
+					ts[i].cond = and(ts[i].cond, ct2)
+				}
+			}
 			targets = append(targets, ts...)
 		}
 		if all {
@@ -513,6 +524,13 @@ func (f *Frame) callTargets(x ssa.CallInstruction, outside func(ssa.Value) bool,
 		ts, err := env.targets(a.E)
 		if err != nil {
 			return nil, true
+		}
+		if a.Cond != nil {
+			if ct2, err := env.boolTerm(a.Cond); err == nil {
+				for i := range ts {
+					ts[i].cond = and(ts[i].cond, ct2)
+				}
+			}
 		}
 		for _, t := range ts {
 			for _, d := range dummies {
